@@ -26,7 +26,22 @@ TSAN = ["-fsanitize=thread"]
 
 # engine -> (list of (source, extra flags)), link flags
 ENGINES = {
+    "iosim": {
+        "tus": [("sim/iosim/main.cpp", ASAN), ("sim/iosim/fmt_json.cpp", ASAN), ("sim/iosim/fmt_csv.cpp", ASAN), ("sim/iosim/fmt_cbor.cpp", ASAN),
+                ("sim/iosim/fmt_msgpack.cpp", ASAN), ("sim/iosim/fmt_ubjson.cpp", ASAN), ("sim/iosim/fmt_bson.cpp", ASAN),
+                ("sim/core/worker.cpp", ASAN), ("sim/core/ledger.cpp", ASAN)],
+        "link": ASAN,
+    },
+    "patchsim": {
+        "tus": [("sim/patchsim/main.cpp", ASAN), ("sim/core/worker.cpp", ASAN)],
+        "link": ASAN,
+    },
+    "stacksim": {   # deliberately unsanitised: measures real stack use on a small thread stack
+        "tus": [("sim/stacksim/main.cpp", []), ("sim/core/worker.cpp", [])],
+        "link": ["-pthread"],
+    },
     "allocsim": {
+        "resume": True,
         "tus": [("sim/allocsim/main.cpp", ASAN), ("sim/allocsim/scn_core.cpp", ASAN), ("sim/allocsim/scn_fmt.cpp", ASAN),
                 ("sim/allocsim/scn_query.cpp", ASAN), ("sim/allocsim/scn_schema.cpp", ASAN), ("sim/allocsim/scn_stateful.cpp", ASAN),
                 ("sim/core/worker.cpp", ASAN), ("sim/core/ledger.cpp", ASAN)],
@@ -153,7 +168,8 @@ def classify_crash(rc, err):
 
 class Worker:
     """One `batch` process covering run indices start, start+stride, ...  Restarted after a crash."""
-    def __init__(self, exe, profile, seed, start, stride, count, wid, outdir, hashes=False, timeout=120):
+    def __init__(self, exe, profile, seed, start, stride, count, wid, outdir, hashes=False, timeout=120, resumable=False):
+        self.resumable = resumable
         self.exe, self.profile, self.seed = exe, profile, seed
         self.start, self.stride, self.count = start, stride, count
         self.wid, self.outdir, self.hashes, self.timeout = wid, outdir, hashes, timeout
@@ -229,7 +245,7 @@ class Worker:
             self.restarts += 1
             k = (last_idx - self.start) // self.stride
             # allocsim-style engines can resume inside the run after the faulting sub-step
-            if last_sub > 0 and self.restarts < 400:
+            if self.resumable and last_sub > 0 and self.restarts < 400:
                 next_k = k; resume_sub = last_sub + 1
             else:
                 next_k = k + 1; resume_sub = 0
@@ -263,6 +279,7 @@ class Server:
             self.close(); self._start()
             self.p.stdin.write(json.dumps(plan) + "\n"); self.p.stdin.flush()
         sub = 0
+        published = None
         timer = threading.Timer(self.timeout, lambda: self.p.kill())
         timer.start()
         try:
@@ -272,6 +289,8 @@ class Server:
                     break
                 if line[:1] == "B":
                     sub = int(line.split()[2])
+                elif line[:1] == "P":
+                    published = json.loads(line[2:])
                 elif line[:1] == "R":
                     return json.loads(line[2:])
         finally:
@@ -281,7 +300,7 @@ class Server:
         err = open(self.errpath, "r", errors="replace").read()
         self.p = None
         cls = classify_crash(rc, err)
-        return {"ok": False, "class": cls, "detail": err[-1500:], "hash": 0, "plan": plan, "crash": True, "sub": sub}
+        return {"ok": False, "class": cls, "detail": err[-1500:], "hash": 0, "plan": published or plan, "crash": True, "sub": sub}
 
 def fresh_replay(exe, path, timeout=300):
     """Execute a replay file in a fresh process; returns (class or None, detail)."""
@@ -414,23 +433,28 @@ def load_known():
     if not os.path.exists(p): return []
     return json.load(open(p)).get("findings", [])
 
-def match_known(known, prop, cls, plan):
-    """An `open` entry matches when property, class pattern and (optional) plan predicates all match."""
+def match_known(known, prop, cls, plan, detail=""):
+    """An `open` entry matches when property, class pattern, (optional) plan predicates and (optional)
+    detail pattern all match: entries name one specific failing input / call site, nothing broader."""
     for k in known:
         if k.get("status") != "open" or k.get("property") != prop: continue
-        if not re.fullmatch(k["class"], cls): continue
-        where = k.get("where", {})
+        if not re.fullmatch(k["class"], cls, re.S): continue
         ok = True
-        for key, pat in where.items():
-            if not re.fullmatch(pat, str(plan.get(key, ""))): ok = False; break
+        for key, pat in k.get("where", {}).items():
+            if not re.fullmatch(pat, str(plan.get(key, "")), re.S): ok = False; break
+        if ok and k.get("detail") and not re.search(k["detail"], detail or "", re.S): ok = False
         if ok: return k
     return None
 
 # ---------------------------------------------------------------- checks
 
 CHECKS = {
-    # id: engine, profile, level, quick (runs, wall cap s), thorough (runs, wall cap s)
-    "C19": dict(engine="allocsim", profile="all", level="fault_enumeration", quick=(1083 + 49 * 14, 600), thorough=(1083 + 49 * 250, 3000), timeout=120),
+    # id: level, parts = [(engine, profile, quick runs, thorough runs)], wall caps per tier
+    "C03": dict(level="exploration", parts=[("iosim", "c03", 21000, 700000)], cap=(600, 3000), timeout=120),
+    "C05": dict(level="exploration", parts=[("iosim", "c05", 14000, 500000)], cap=(600, 3000), timeout=120),
+    "C10": dict(level="exploration", parts=[("iosim", "c10", 1400, 14000), ("stacksim", "stack", 264, 1056)], cap=(600, 3000), timeout=300),
+    "C15": dict(level="fault_enumeration", parts=[("patchsim", "c15", 2400, 120000)], cap=(600, 3000), timeout=120),
+    "C19": dict(level="fault_enumeration", parts=[("allocsim", "all", 1083 + 49 * 14, 1083 + 49 * 250)], cap=(600, 3000), timeout=120),
 }
 
 def write_evidence(cid, tier, seed, level, coverage, assumptions, wall, violations):
@@ -441,11 +465,11 @@ def write_evidence(cid, tier, seed, level, coverage, assumptions, wall, violatio
     json.dump(ev, open(tmp, "w"), indent=1, sort_keys=True)
     os.replace(tmp, os.path.join(VERIF, "evidence", cid + ".json"))
 
-def run_batch(exe, profile, seed, total, cap_s, outdir, workers=None, hashes=False, timeout=120):
+def run_batch(exe, profile, seed, total, cap_s, outdir, workers=None, hashes=False, timeout=120, resumable=False):
     workers = workers or NCPU
     os.makedirs(outdir, exist_ok=True)
     per = (total + workers - 1) // workers
-    ws = [Worker(exe, profile, seed, w, workers, min(per, (total - w + workers - 1) // workers), w, outdir, hashes, timeout) for w in range(workers)]
+    ws = [Worker(exe, profile, seed, w, workers, min(per, (total - w + workers - 1) // workers), w, outdir, hashes, timeout, resumable) for w in range(workers)]
     ws = [w for w in ws if w.count > 0]
     deadline = time.time() + cap_s
     ts = [threading.Thread(target=w.run, args=(deadline,)) for w in ws]
@@ -457,59 +481,70 @@ def do_check(cid, tier, seed):
     import engines_meta as meta
     spec = CHECKS[cid]
     t0 = time.time()
-    exe = build_engine(spec["engine"])
     outdir = os.path.join(OUT, cid)
     shutil.rmtree(outdir, ignore_errors=True)
     os.makedirs(outdir, exist_ok=True)
     for old in glob.glob(os.path.join(OUT, "replays", cid + "-*.json")):
         os.remove(old)
-    total, cap = spec[tier]
-    total = int(os.environ.get("VERIF_RUNS", total))
-    ws = run_batch(exe, spec["profile"], seed, total, cap, outdir, timeout=spec.get("timeout", 120))
+    cap = spec["cap"][0 if tier == "quick" else 1]
     stats, distinct, samples = {}, set(), []
-    found = []   # (class, plan, detail)
-    for w in ws:
-        for k, v in w.stats.items():
-            if k.startswith("max."): stats[k] = max(stats.get(k, 0), v)
-            else: stats[k] = stats.get(k, 0) + v
-        distinct |= w.distinct
-        samples += w.samples
-        for idx, r in w.violations:
-            found.append((r["class"], r["plan"], r["detail"]))
-        for idx, sub, cls, err in w.crashes:
-            if idx is None:
-                log("worker failed at startup: " + cls + "\n" + err); raise SystemExit(2)
-            plan = json.loads(subprocess.run([exe, "dump", spec["profile"], str(seed), str(idx)], stdout=subprocess.PIPE, text=True).stdout)
-            if sub: plan["n"] = sub
-            found.append((cls, plan, err[-1500:]))
-    stats["worker_restarts"] = sum(w.restarts for w in ws)
+    found = []   # (engine, exe, class, plan, detail)
+    total_all = 0
+    for pi, (engine, profile, nq, nt) in enumerate(spec["parts"]):
+        exe = build_engine(engine)
+        total = int(os.environ.get("VERIF_RUNS", nq if tier == "quick" else nt))
+        total_all += total
+        ws = run_batch(exe, profile, seed, total, cap, os.path.join(outdir, "p%d" % pi), timeout=spec.get("timeout", 120), resumable=ENGINES[engine].get("resume", False))
+        for w in ws:
+            for k, v in w.stats.items():
+                if k.startswith("max."): stats[k] = max(stats.get(k, 0), v)
+                else: stats[k] = stats.get(k, 0) + v
+            distinct |= set(engine + ":" + d for d in w.distinct)
+            samples += w.samples[:2]
+            for idx, r in w.violations:
+                found.append((engine, exe, r["class"], r["plan"], r["detail"]))
+            for idx, sub, cls, err in w.crashes:
+                if idx is None:
+                    log("worker failed at startup: " + cls + "\n" + err); raise SystemExit(2)
+                plan = json.loads(subprocess.run([exe, "dump", profile, str(seed), str(idx)], stdout=subprocess.PIPE, text=True).stdout)
+                if sub: plan["sub"] = sub
+                found.append((engine, exe, cls, plan, err[-1500:]))
+        stats["worker_restarts"] = stats.get("worker_restarts", 0) + sum(w.restarts for w in ws)
     known = load_known()
     rc = 0
     reported = {}
     known_hit = {}
-    srv = Server(exe, outdir, timeout=spec.get("timeout", 120))
+    servers = {}
     try:
-        for cls, plan, detail in found:
+        for engine, exe, cls, plan, detail in found:
             if cls.startswith("harness:"):
                 print("HARNESS-ERROR %s %s" % (cls, detail)); rc = max(rc, 2); continue
-            k = match_known(known, cid, cls, plan)
+            k = match_known(known, cid, cls, plan, detail)
             if k is not None:
                 known_hit.setdefault(k["id"], [k, 0])[1] += 1
                 continue
             if cls in reported:
                 reported[cls]["count"] += 1; continue
+            if engine not in servers:
+                servers[engine] = Server(exe, outdir, timeout=spec.get("timeout", 120))
+            srv = servers[engine]
             # gate (a): same plan, second execution, same class
             r2 = srv.run(plan)
             if r2["ok"] or r2["class"] != cls:
                 print("HARNESS-ERROR nondeterministic violation: first %s then %s" % (cls, r2.get("class") if not r2["ok"] else "ok")); rc = max(rc, 2); continue
+            plan = r2.get("plan") or plan      # engines narrow a sweep to the one failing element
             def same(c):
                 r = srv.run(c)
                 return (not r["ok"]) and r["class"] == cls
             small, used = shrink(plan, same, budget=int(os.environ.get("VERIF_SHRINK", "300")))
+            rdet = srv.run(small)
+            k = match_known(known, cid, cls, small, rdet.get("detail", detail))
+            if k is not None:
+                known_hit.setdefault(k["id"], [k, 0])[1] += 1
+                continue
             rfile = os.path.join(OUT, "replays", "%s-%s.json" % (cid, hashlib.sha256((cls + json.dumps(small, sort_keys=True)).encode()).hexdigest()[:12]))
             os.makedirs(os.path.dirname(rfile), exist_ok=True)
-            rdet = srv.run(small)
-            json.dump({"property": cid, "engine": spec["engine"], "class": cls, "detail": rdet.get("detail", detail), "seed": seed,
+            json.dump({"property": cid, "engine": engine, "class": cls, "detail": rdet.get("detail", detail), "seed": seed,
                        "shrink_executions": used, "plan": small, "original_plan": plan}, open(rfile, "w"), indent=1)
             # gate (b): fresh process
             c3, d3 = fresh_replay(exe, rfile)
@@ -520,12 +555,12 @@ def do_check(cid, tier, seed):
             print("  detail: " + (rdet.get("detail", detail) or "").replace("\n", "\n  ")[:1500])
             rc = max(rc, 1)
     finally:
-        srv.close()
+        for srv in servers.values(): srv.close()
     for kid, (k, cnt) in sorted(known_hit.items()):
         print("KNOWN-FINDING: property=%s %s [%s, hit %d times]" % (cid, k["what"], kid, cnt))
     wall = time.time() - t0
     runs = stats.get("runs", 0)
-    coverage = meta.coverage(cid, stats, distinct, samples, runs, wall, total)
+    coverage = meta.coverage(cid, stats, distinct, samples, runs, wall, total_all)
     write_evidence(cid, tier, seed, spec["level"], coverage, meta.assumptions(cid), wall, len(reported))
     print("%s %s: %d runs, %d distinct non-trivial, %d violation class(es), %d known finding(s), %.0fs" %
           (cid, tier, runs, len(distinct), len(reported), len(known_hit), wall))
